@@ -132,7 +132,7 @@ def section(chk: Check, max_cmds: int):
             chk.nontrivial(("socks5tcp", e["_d"]))
     for bads in results:
         for b in bads:
-            chk.violation("B1 socks5-tcp: %s differs from Socks5Tcp specification" % ",".join(b["differs"]),
+            chk.divergence("Socks5Tcp", "B1 socks5-tcp: %s differs from Socks5Tcp specification" % ",".join(b["differs"]),
                           {"kind": "b1-socks5tcp", "differs": b["differs"], "last": b["history"][-1]["n"]}, b)
     pick = [e for e in g.edges if e["obs"]["assoc"] == 1]
     if pick:
